@@ -32,6 +32,68 @@ K2K2 == SymOfEdges(4, {<<1, 2>>, <<3, 4>>})
 K2K3 == SymOfEdges(5, {<<1, 2>>, <<3, 4>>, <<3, 5>>, <<4, 5>>})
 W2 == EMat(2, LAMBDA i, j : IF i = j THEN 0 ELSE 2)
 
+(* ---- scale-regime clauses (RandomWalk.tla, "walk counts beyond 32 bits") on inputs whose   *)
+(* counts pass 2^24 but still fit TLC: K5 with 14 slices (4^14 = 2.7e8, totals up to 1.8e9)    *)
+(* and the irregular K4 + pendant node with 17 slices.  Enc* is the encoding of                 *)
+(* harness/props/c18.py:big_enc in TLA+ (24-bit mantissa, half-up).                             *)
+EncE0(x) == IF x < T24 THEN 0 ELSE CHOOSE k \in 1..7 : Shr(x, k) < T24 /\ Shr(x, k - 1) >= T24
+EncM0(x) == LET k == EncE0(x) IN IF k = 0 THEN x ELSE (x + Pow2Tab[k - 1]) \div Pow2Tab[k]
+EncE(x) == IF EncM0(x) = T24 THEN EncE0(x) + 1 ELSE EncE0(x)
+EncM(x) == IF EncM0(x) = T24 THEN T24 \div 2 ELSE EncM0(x)
+K5 == SymOfEdges(5, {<<1, 2>>, <<1, 3>>, <<1, 4>>, <<1, 5>>, <<2, 3>>, <<2, 4>>, <<2, 5>>, <<3, 4>>, <<3, 5>>, <<4, 5>>})
+K4P == SymOfEdges(5, {<<1, 2>>, <<1, 3>>, <<1, 4>>, <<2, 3>>, <<2, 4>>, <<3, 4>>, <<4, 5>>})
+BigCase(n, A, K) ==
+  LET P == PowTab(n, A, K)
+      tot == LET wlq == [k \in 1..K |-> Sum((1..n) \X (1..n), LAMBDA p : P[k][p[1]][p[2]])] IN <<SeqSum(wlq), wlq>>
+  IN [n |-> n, A |-> A, K |-> K,
+      Wm |-> [k \in 1..K |-> EMat(n, LAMBDA i, j : EncM(P[k][i][j]))],
+      We |-> [k \in 1..K |-> EMat(n, LAMBDA i, j : EncE(P[k][i][j]))],
+      Wr |-> [k \in 1..K |-> EMat(n, LAMBDA i, j : P[k][i][j] % BigP)],
+      tw |-> <<EncM(tot[1]), EncE(tot[1]), tot[1] % BigP>>,
+      wlm |-> [k \in 1..K |-> EncM(tot[2][k])], wle |-> [k \in 1..K |-> EncE(tot[2][k])],
+      wlr |-> [k \in 1..K |-> tot[2][k] % BigP]]
+BigWqOK(b) ==
+  /\ BigEncodingOK(b.n, b.K, b.Wm, b.We, b.Wr, BigP) /\ BigFinite(b.n, b.K, b.Wm) /\ BigNonNeg(b.n, b.K, b.Wm)
+  /\ BigClipOK(b.n, b.K, ClipTab(b.n, b.A, b.K, T24), T24, b.Wm, b.We, 0)
+  /\ BigModOK(b.n, b.K, ModTab(b.n, b.A, b.K, BigP), b.We, b.Wr, 0)
+  /\ BigRecOK(b.n, b.K, InNbTab(b.n, b.A), b.Wm, b.We, 0)
+  /\ BigRegularOK(b.n, b.K, b.A, b.Wm, b.We, 0)
+BigTotOK(b) == BigTotalsOK(b.n, b.K, b.Wm, b.We, b.Wr, BigP, b.tw, b.wlm, b.wle, b.wlr)
+Bump(T, k, i, j, v) == [T EXCEPT ![k][i][j] = v]
+BK5 == BigCase(5, K5, 14)
+BK4P == BigCase(5, K4P, 17)
+ASSUME BigWqOK(BK5) /\ BigTotOK(BK5) /\ RegDeg(5, K5) = 4
+ASSUME BigWqOK(BK4P) /\ BigTotOK(BK4P) /\ RegDeg(5, K4P) = 0
+ASSUME BK5.We[14][1][2] = 2 /\ BK5.wle[14] = 7 /\ BK4P.We[17][1][2] >= 1       \* the cases do leave 24 bits
+(* rejected: a count of 2.1e8 off by 1e-4 (recurrence into and out of the slice); a wrong       *)
+(* residue; a small count off by one; a slice that is not a count at all; totals off by 1e-4    *)
+ASSUME LET x == BK5.Wm[13][1][2] IN
+         ~BigRecOK(5, 14, InNbTab(5, K5), Bump(BK5.Wm, 13, 1, 2, x + x \div 10000), BK5.We, 0)
+ASSUME ~BigRegularOK(5, 14, K5, Bump(BK5.Wm, 13, 1, 2, BK5.Wm[13][1][2] + 5000), BK5.We, 0)
+ASSUME ~BigModOK(5, 14, ModTab(5, K5, 14, BigP), BK5.We, Bump(BK5.Wr, 12, 2, 1, (BK5.Wr[12][2][1] + 1) % BigP), 0)
+ASSUME ~BigClipOK(5, 17, ClipTab(5, K4P, 17, T24), T24, Bump(BK4P.Wm, 3, 5, 5, BK4P.Wm[3][5][5] + 1), BK4P.We, 0)
+ASSUME ~BigClipOK(5, 14, ClipTab(5, K5, 14, T24), T24, Bump(BK5.Wm, 14, 1, 2, 12345), Bump(BK5.We, 14, 1, 2, 0), 0)
+ASSUME ~BigNonNeg(5, 14, Bump(BK5.Wm, 14, 1, 2, -BK5.Wm[14][1][2]))
+ASSUME ~BigTotalsOK(5, 14, BK5.Wm, BK5.We, BK5.Wr, BigP, BK5.tw,
+                    [BK5.wlm EXCEPT ![14] = @ + @ \div 10000], BK5.wle, BK5.wlr)
+ASSUME ~BigTotalsOK(5, 14, BK5.Wm, BK5.We, BK5.Wr, BigP, <<BK5.tw[1], BK5.tw[2] + 1, BK5.tw[3]>>,
+                    BK5.wlm, BK5.wle, BK5.wlr)
+(* the docstring's slice convention (slice k = A^(k-1), slice 1 free) is accepted as c = 1      *)
+ASSUME LET sh(T) == [k \in 1..14 |-> IF k = 1 THEN Zero(5) ELSE T[k - 1]] IN
+         /\ BigClipOK(5, 14, ClipTab(5, K5, 14, T24), T24, sh(BK5.Wm), sh(BK5.We), 1)
+         /\ ~BigClipOK(5, 14, ClipTab(5, K5, 14, T24), T24, sh(BK5.Wm), sh(BK5.We), 0)
+         /\ BigModOK(5, 14, ModTab(5, K5, 14, BigP), sh(BK5.We), sh(BK5.Wr), 1)
+         /\ BigRecOK(5, 14, InNbTab(5, K5), sh(BK5.Wm), sh(BK5.We), 1)
+         /\ BigRegularOK(5, 14, K5, sh(BK5.Wm), sh(BK5.We), 1)
+(* interval arithmetic: 3 * 2^23 + 5 in two ways; distinct numbers are told apart                *)
+ASSUME FNorm(25165829, 0, 0) = <<12582914, 1, 2>>
+ASSUME LET m == <<8388608, 8388608, 8388613>>  IN
+         /\ FNear(FSum(1..3, LAMBDA l : m[l], LAMBDA l : 0, LAMBDA l : 0), <<12582914, 1, 1>>)
+         /\ ~FNear(FSum(1..3, LAMBDA l : m[l], LAMBDA l : 0, LAMBDA l : 0), <<12582924, 1, 1>>)
+         /\ ~FNear(<<12582914, 1, 1>>, <<12582914, 2, 1>>) /\ ~FNear(<<12582914, 40, 1>>, <<5, 0, 0>>)
+ASSUME /\ FNear(FPowTab(11, 8)[8], <<13397430, 4, 0>>) /\ ~FNear(FPowTab(11, 8)[8], <<13397450, 4, 0>>)
+       /\ FNear(FPowTab(2, 40)[40], <<8388608, 17, 0>>) /\ FPowTab(7, 3)[3] = <<343, 0, 0>>
+
 SubOK(n, A, c) == SubMagOK(n, A) /\ SubRem6(n, A) <= 300 /\ SubgraphIsExpDiag(n, A, c)
 ASSUME SubOK(2, K2, <<1543081, 1543081>>)
 ASSUME SubOK(3, K3, <<2708272, 2708272, 2708272>>)
